@@ -1824,7 +1824,7 @@ theorem C15_D15d_witness :
   decide +kernel
 
 /-- the 2 x 2 split grid (three vertices moved, all triangles positively oriented), fully anchored with a straight bottom
-    boundary, after `cut_outer_edge(7, [25, 26, 27])` and the re-anchoring of the bare half edge 27 (D15b) -/
+    boundary, after `cut_outer_edge(7, [25, 26, 27])` (half edge 27 anchored on curve 7 by the driver) -/
 def flatGrid : Map Val :=
   { (Map.empty 3 stdStorages 28 : Map Val) with
     b := #[#[0, 3, 1, 2, 6, 4, 5, 9, 27, 25, 12, 10, 11, 15, 13, 14, 18, 16, 17, 21, 19, 20, 24, 22, 23, 7, 8, 26],
